@@ -75,7 +75,20 @@ EntropyFails(e) ==
           \cup (IF o.res # "ok" /\ m.res = "ok" THEN {"half-signed-message-serialised"} ELSE {})
         ELSE {})
 
-Fails(e) == CASE e.flow = "sign" -> SignFails(e) [] e.flow = "verify" -> VerifyFails(e) [] e.flow = "entropy" -> EntropyFails(e)
+\* the key behind a built-in signer fails (error / empty / nil signature): nothing usable comes out
+KeyFaultFails(e) ==
+  LET o == e.obs[OpIdx(e)]  kf == e.fs[1] IN
+  (IF o.res = "panic" THEN {"panic"} ELSE {})
+  \cup (IF kf = "err" /\ o.res = "ok" THEN {"key-error-not-returned"} ELSE {})
+  \cup (IF o.res # "ok" /\ ~o.outnil THEN {"bytes-returned-together-with-an-error"} ELSE {})
+  \cup (IF Returning(e.shape) /\ o.out # <<>> THEN {"message-or-signature-returned-although-the-key-failed"} ELSE {})
+  \cup (IF HasMarshal(e) THEN
+          LET m == e.obs[OpIdx(e) + 1] sl == Slots(e, o) IN
+          (IF sl[Len(sl)] # <<>> THEN {"signature-stored-although-the-key-failed"} ELSE {})
+          \cup (IF m.res = "ok" THEN {"message-serialised-although-the-key-failed"} ELSE {})
+          \cup (IF m.res # "ok" /\ ~m.outnil THEN {"bytes-returned-together-with-an-error"} ELSE {})
+        ELSE {})
+Fails(e) == CASE e.flow = "keyfault" -> KeyFaultFails(e) [] e.flow = "sign" -> SignFails(e) [] e.flow = "verify" -> VerifyFails(e) [] e.flow = "entropy" -> EntropyFails(e)
 
 TInit == l = 1 /\ KitInit
 TNext == /\ l <= Len(Tr) /\ l' = l + 1
